@@ -16,6 +16,7 @@ def parseOp : String → Option Op
   | "IntervalWithInitial" => some .intervalWithInitial
   | "Timer" => some .timer
   | "RangeWithInterval" => some .rangeWithInterval
+  | "RangeWithStepAndInterval" => some .rangeWithInterval     -- the same clause with `step=` from the case line
   | "ThrottleTime" => some .throttleTime
   | "SampleTime" => some .sampleTime
   | "BufferWithTime" => some .bufferWithTime
@@ -77,7 +78,7 @@ def run (c : Case) : String :=
   match parseOp (c.getD "op" "?"), parseObs obs with
   | some op, some (tr, flags) =>
     let cfg : Cfg := { op := op, d := natField c "d", d2 := natField c "d2", n := natField c "n",
-                       a := intField c "a", b := intField c "b" }
+                       a := intField c "a", b := intField c "b", step := ((c.get "step").bind String.toNat?).getD 1 }
     let hto := if flags == "T" then " hto=1" else ""
     if accepts cfg tr then s!"res {c.id} accept=1{hto}"
     else s!"res {c.id} accept=0{hto} why={why cfg tr}"
